@@ -903,7 +903,9 @@ def scan_assumptions(em):
         if mm:
             # name the item: next line containing fn/struct/spec fn
             name = ''
-            for j in range(i, min(i + 6, len(lines))):
+            # an attribute or `uninterp` stands in FRONT of the item it marks; admit()/assume() stand INSIDE the body of the item
+            inside = re.match(r'\s*(admit|assume)\s*\(', mm.group(1)) is not None
+            for j in (range(i, max(i - 16, -1), -1) if inside else range(i, min(i + 6, len(lines)))):
                 m2 = re.search(r'\b(fn|struct|enum|type)\s+(\w+)', lines[j])
                 if m2:
                     name = m2.group(2); break
